@@ -130,6 +130,49 @@ Definition reward (rden cden bal ts factor scale num den pool rate : N)
       do pool2 <- qsub pool1 com ;                         (* Deposit: Move(&p.Balance, stakeSrc, amount) *)
       Ok (Some (rem, com, sh, pool2)).
 
+(* (b2) AddRewards -- state.go:1192-1311: the loop over the (sorted) addresses shares ONE
+   common-pool value; an entity whose reward does not fit is skipped (:1242-1245), the
+   pool is written once after the loop (:1306).  [scale] = None: past the end of the
+   reward schedule, nothing happens (:1209-1212).  Accounts are (balance, total shares,
+   current commission rate) in address order.
+   Output: per account (added without shares, commission, new shares) -- zeros when
+   nothing was paid -- and the final common pool. *)
+Fixpoint rewards_loop (rden cden factor scale : N) (accts : list (N * N * N)) (pool : N)
+  : res (list (N * N * N) * N) :=
+  match accts with
+  | [] => Ok ([], pool)
+  | (bal, ts, rate) :: r =>
+      (* AddRewards has no attenuation: the reward is bal*factor*scale/rden = [reward] with num = den = 1 *)
+      do o <- reward rden cden bal ts factor scale 1 1 pool rate ;
+      match o with
+      | None => do x <- rewards_loop rden cden factor scale r pool ;
+                let '(l, p) := x in Ok ((0, 0, 0) :: l, p)
+      | Some (rem, com, sh, pool1) =>
+                do x <- rewards_loop rden cden factor scale r pool1 ;
+                let '(l, p) := x in Ok ((rem, com, sh) :: l, p)
+      end
+  end.
+
+Definition zeros3 {A} (l : list A) : list (N * N * N) := map (fun _ => (0, 0, 0)) l.
+
+Definition rewards_seq (rden cden factor : N) (scale : option N) (accts : list (N * N * N)) (pool : N)
+  : res (list (N * N * N) * N) :=
+  match scale with
+  | None => Ok (zeros3 accts, pool)
+  | Some sc => rewards_loop rden cden factor sc accts pool
+  end.
+
+(* (b3) the proposer reward path end to end -- proposing_rewards.go:36-73:
+   no entity / no epoch (first block: abci/state.go:283-286) / past the schedule => nothing. *)
+Definition proposer_path (rden cden : N) (known epoch_valid : bool) (scale : option N)
+           (bal ts factor nVE nEV pool rate : N) : res (option (N * N * N * N)) :=
+  if negb known then Ok None                               (* :42-44 *)
+  else if negb epoch_valid then Ok None                    (* :55-58 *)
+  else match scale with
+       | None => Ok None                                   (* state.go:1332-1335 *)
+       | Some sc => reward rden cden bal ts factor sc nVE nEV pool rate
+       end.
+
 (* (b') TransferFromCommon with escrow = true -- state.go:953-1085 with the repair of commit
    c3a21ab (used only by roothash distributeSlashedFunds, apps/roothash/slashing.go:195).
    Output: None = pool empty; otherwise
@@ -333,12 +376,57 @@ Definition signing_eligible (total count tnum tden : N) : res bool :=
   else if negb (tden =? 0) && (u64max / tden <? count) then Fatal (* :563-565 *)
   else Ok (negb (count * tden <? total * tnum)).                  (* :566-570 *)
 
+(* (b4) the signing reward path end to end -- signing_rewards.go:36-78 + EligibleEntities +
+   AddRewards.  Entities are (blocks signed, balance, total shares, rate) in entity-id order
+   (EligibleEntities sorts, state.go:572-574). *)
+Fixpoint eligible_all (total tnum tden : N) (ents : list (N * N * N * N)) : res (list bool) :=
+  match ents with
+  | [] => Ok []
+  | (count, _, _, _) :: r =>
+      do e <- signing_eligible total count tnum tden ;
+      do l <- eligible_all total tnum tden r ;
+      Ok (e :: l)
+  end.
+
+(* AddRewards over the eligible entities only; the others get the zero entry *)
+Fixpoint rewards_selected (rden cden factor scale : N) (flags : list bool)
+         (ents : list (N * N * N * N)) (pool : N) : res (list (N * N * N) * N) :=
+  match flags, ents with
+  | true :: fr, (_, bal, ts, rate) :: r =>
+      do o <- reward rden cden bal ts factor scale 1 1 pool rate ;
+      match o with
+      | None => do x <- rewards_selected rden cden factor scale fr r pool ;
+                let '(l, p) := x in Ok ((0, 0, 0) :: l, p)
+      | Some (rem, com, sh, pool1) =>
+                do x <- rewards_selected rden cden factor scale fr r pool1 ;
+                let '(l, p) := x in Ok ((rem, com, sh) :: l, p)
+      end
+  | false :: fr, _ :: r =>
+      do x <- rewards_selected rden cden factor scale fr r pool ;
+      let '(l, p) := x in Ok ((0, 0, 0) :: l, p)
+  | _, _ => Ok ([], pool)
+  end.
+
+Definition signing_path (rden cden tnum tden total factor : N) (scale : option N)
+           (ents : list (N * N * N * N)) (pool : N) : res (list (N * N * N) * N) :=
+  if tden =? 0 then Ok (zeros3 ents, pool)                 (* signing_rewards.go:42-47 *)
+  else if total =? 0 then Ok (zeros3 ents, pool)           (* :58-60 *)
+  else if negb (tnum =? 0) && (u64max / tnum <? total) then Fatal   (* state.go:558-560 *)
+  else
+    do flags <- eligible_all total tnum tden ents ;        (* state.go:562-571 *)
+    match scale with
+    | None => Ok (zeros3 ents, pool)                       (* state.go:1209-1212 *)
+    | Some sc => rewards_selected rden cden factor sc flags ents pool
+    end.
+
 (* ------------------------------------------------------------------ *)
 (* correspondence: one sum type of calls and outputs *)
 Inductive call :=
 | CFeeP (total wP wV wQ : N) (known : bool)
 | CFeeVQ (last nEV nVE wV wQ : N) (known : bool)
 | CReward (rden cden bal ts factor scale num den pool rate : N)
+| CRewardSeq (rden cden factor : N) (scale : option N) (accts : list (N * N * N)) (pool : N)
+| CSigning (rden cden tnum tden total factor : N) (scale : option N) (ents : list (N * N * N * N)) (pool : N)
 | CSlash (active deb amount : N)
 | CDebond (bal ts shares : N)
 | CTally (validators delegs : list (N * N * N)) (votes : list (N * vote)) (threshold : N).
@@ -350,6 +438,7 @@ Inductive outv :=
 | OQuad (a b c d : N)
 | OPair (a b : N)
 | OOne (a : N)
+| OSeq (l : list (N * N * N)) (pool : N)
 | OTally (y n a other : N) (passed : bool).   (* other = all entries except yes/no/abstain *)
 
 Definition run_call (c : call) : outv :=
@@ -368,6 +457,10 @@ Definition run_call (c : call) : outv :=
       | Ok (Some (a, b, c, d)) => OQuad a b c d
       | Fatal => OFatal
       end
+  | CRewardSeq rd cd f sc ac p =>
+      match rewards_seq rd cd f sc ac p with Ok (l, q) => OSeq l q | Fatal => OFatal end
+  | CSigning rd cd tn td tot f sc en p =>
+      match signing_path rd cd tn td tot f sc en p with Ok (l, q) => OSeq l q | Fatal => OFatal end
   | CSlash a d m =>
       match slash_escrow a d m with Ok (x, y) => OPair x y | Fatal => OFatal end
   | CDebond b t s =>
@@ -385,6 +478,9 @@ Definition outv_eqb (a b : outv) : bool :=
   | ONone, ONone => true
   | OTriple a1 a2 a3, OTriple b1 b2 b3 => (a1 =? b1) && (a2 =? b2) && (a3 =? b3)
   | OQuad a1 a2 a3 a4, OQuad b1 b2 b3 b4 => (a1 =? b1) && (a2 =? b2) && (a3 =? b3) && (a4 =? b4)
+  | OSeq l p, OSeq l' p' =>
+      list_eqb (fun x y => let '(a1, a2, a3) := x in let '(b1, b2, b3) := y in
+                           (a1 =? b1) && (a2 =? b2) && (a3 =? b3)) l l' && (p =? p')
   | OPair a1 a2, OPair b1 b2 => (a1 =? b1) && (a2 =? b2)
   | OOne a1, OOne b1 => a1 =? b1
   | OTally y n a o p, OTally y' n' a' o' p' => (y =? y') && (n =? n') && (a =? a') && (o =? o') && Bool.eqb p p'
